@@ -480,16 +480,25 @@ def replay(path, build):
 
 def run(tier, seed, build):
     rep = Report("C13", tier, seed)
+    phase(rep, tier, seed)
+    return rep.finish()
+
+
+def phase(rep, tier, seed, only=None, tag="c13"):
+    """the whole C13 procedure on `rep`; with only = {request kinds} it is the restriction to those requests
+    (used by C07 for the load vectors of assemblies and stiffened bays, by C08 for their fint / kT)"""
     rng = random.Random(seed)
     # 1. bounded model: placement algebra, partition independence, symmetry, probes ... as TLC invariants
     cfg = ("SPECIFICATION EmitSpec\nCONSTANTS\nNFun = 8\nADeviations = {}\nTier = \"%s\"\nPart = \"all\"\n%s\nCHECK_DEADLOCK FALSE\n"
            % (tier, "\n".join("INVARIANT " + i for i in INVS)))
-    mc = run_tlc("c13-mc", "MC_Assembly", cfg, workers=16, timeout=6000, heap="16g")
+    mc = run_tlc(tag + "-mc", "MC_Assembly", cfg, workers=16, timeout=6000, heap="8g")
     rep.add_tlc("MC_Assembly", mc)
     if not mc.ok:
         rep.machinery("TLC on MC_Assembly failed: " + mc.errors())
-        return rep.finish()
+        return
     pairs = [(v[1], v[2]) for v in printed_values(mc.out, "REQ")]
+    if only:
+        pairs = [(d, r) for d, r in pairs if r["q"] in only]
     # vacuity: every clause of the property must have been exercised by the bounded model
     seen = set()
     for d, r in pairs:
@@ -502,21 +511,26 @@ def run(tier, seed, build):
            [("bay", q) for q in ("size", "k0", "kG0", "kM", "place", "fext", "b1dmass")] + \
            [("cuts", k, False) for k in range(5)] + [("panels", 1, 0), ("panels", 4, 2)]
     missing = [x for x in need if x not in seen]
-    if missing:
+    if missing and not only:
         rep.machinery("bounded model is vacuous for " + str(missing))
-        return rep.finish()
+        return
     # 2. replay into the real code + seeded random definitions
     nrand = 8 if tier == "quick" else 240
     for _ in range(nrand):
         ad = random_asm(rng)
         for q in (["size", "k0"] + rng.sample(["kG0", "kM", "fext"], 1 if tier == "quick" else 3)):
+            if only and q not in only:
+                continue
             pairs.append((ad, random_asm_req(rng, ad, q)))
         bd = random_skin_bay(rng)
         for q in (["size"] + rng.sample(["k0", "kG0", "kM"], 1 if tier == "quick" else 3)):
+            if only and q not in only:
+                continue
             pairs.append((bd, dict(q=q, N=[rat(Fraction(rng.randint(-12, 12), 4)) for _ in range(3)]) if q == "kG0" else dict(q=q)))
     for _ in range(nrand // 3):
         bd = random_stiff_bay(rng)
-        pairs += [(bd, dict(q="size")), (bd, dict(q="place"))]
+        if not only:
+            pairs += [(bd, dict(q="size")), (bd, dict(q="place"))]
     events, meta = [], {}
     gc.collect()
     gc.freeze()          # the package calls gc.collect() in every method: keep the parsed lattice out of its way
@@ -531,9 +545,12 @@ def run(tier, seed, build):
     if os.environ.get("C13_DUMP"):
         with open(os.environ["C13_DUMP"], "w") as f:
             json.dump(events, f)
-    inherited_seen = judge(rep, events, meta, "c13-tr")
-    rep.cov["traces_validated_against_impl"] = len(events)
-    rep.cov["evaluations"] = len(events)
+    inherited_seen = judge(rep, events, meta, tag + "-tr")
+    rep.cov["traces_validated_against_impl"] += len(events)
+    rep.cov["evaluations"] += len(events)
+    if only:
+        rep.cov["assembly_and_bay_events"] = len(events)
+        return
     rep.cov["inherited_findings_met"] = sorted(inherited_seen)
     rep.sample(dict(d=pairs[0][0], req=pairs[0][1]))
     rep.sample(dict(d=pairs[-1][0], req=pairs[-1][1]))
@@ -553,4 +570,3 @@ def run(tier, seed, build):
         % ", ".join(sorted(INHERITED)),
         "assemblies use the 3-dof CLT models",
         "documented call order: calc_k0 before calc_kM / calc_kT / calc_fint (history dependence is C20's subject)"]
-    return rep.finish()
